@@ -296,6 +296,8 @@ pub enum Op {
     AwaitTimer(u8),
     /// output port (C16): publish number `n`
     PortPub(u32),
+    /// publish the numbers `first .. first + n` back to back, without giving any other task a turn in between
+    PortPubMany { first: u32, n: u8 },
     /// subscribe actor `who` with converter `conv` (skips n when conv < 3 and (n + conv) % 3 == 0)
     PortSub { who: u8, conv: u8 },
 }
@@ -1304,6 +1306,13 @@ pub async fn exec_op(w: &Arc<World>, c: usize, i: usize, op: &Op) -> Res {
         Op::PortPub(n) => {
             let port = w.port.lock().unwrap().get_or_insert_with(|| Arc::new(ractor::OutputPort::default())).clone();
             port.send(PMsg(*n));
+            Res::Unit
+        }
+        Op::PortPubMany { first, n } => {
+            let port = w.port.lock().unwrap().get_or_insert_with(|| Arc::new(ractor::OutputPort::default())).clone();
+            for k in 0..*n as u32 {
+                port.send(PMsg(*first + k));
+            }
             Res::Unit
         }
         Op::PortSub { who, conv } => {
